@@ -1,4 +1,285 @@
 import PeliteModel.Lemmas.Rich
-/-! C16 — Rich header decode, checksum and encode are mutually consistent. -/
+/-!
+C16 — Rich header decode, checksum and encode are mutually consistent.
+Property theorems only; helper lemmas are in Lemmas/Rich.lean.
+
+Vocabulary: an image is the list of its dwords (`words` of the bytes, each `< 2^32`);
+`areaOf image` = the dwords before `e_lfanew` (dword 15 of the image, divided by 4);
+`Spec.layout stub k rs pad = stub ++ [DanS^k,k,k,k] ++ records^k ++ [Rich,k] ++ zeros pad`;
+`Spec.checksum` = the documented byte-wise rotate-and-add sum (Spec/Rich.lean).
+-/
 namespace Pelite.Rich
+open Spec
+
+/-! ## (a) the record codec -/
+
+/-- decode ∘ encode = id, for every key (no range condition on the key at all). -/
+theorem C16_decode_encode (k : Nat) (r : Record) (hr : r.WF) :
+    Record.decode k (r.encode k).1 (r.encode k).2 = r :=
+  decode_encode k r hr
+
+/-- encode ∘ decode = id on every pair of dwords, for every 32-bit key. -/
+theorem C16_encode_decode (k w0 w1 : Nat) (hk : k < 4294967296) (h0 : w0 < 4294967296) :
+    (Record.decode k w0 w1).encode k = (w0, w1) :=
+  encode_decode k w0 w1 hk h0
+
+/-- The code's codec is the documented one: comp.id = product·2^16 + build, both dwords xor key. -/
+theorem C16_codec_is_documented (k : Nat) (r : Record) (hr : r.WF) (w0 w1 : Nat)
+    (hk : k < 4294967296) (h0 : w0 < 4294967296) (h1 : w1 < 4294967296) :
+    [(r.encode k).1, (r.encode k).2] = encRecord k r ∧
+    Record.decode k w0 w1 = decRecord k w0 w1 ∧ (Record.decode k w0 w1).WF :=
+  ⟨encode_eq_spec k r hr.1, decode_eq_spec k w0 w1 hk h0, decode_wf k w0 w1 hk h1⟩
+
+/-! ## the checksum -/
+
+/-- The code's dword loop with its running byte offset (`rotate_left(i + j)`, e_lfanew zeroed by
+`i == 0x3c`, wrapping adds) computes the documented checksum, and does not overflow its `u32`
+offset for any stub below 4 GiB. -/
+theorem C16_checksum_is_documented (stub : List Nat) (rs : List Record)
+    (hlen : 4 * stub.length < 4294967296) (hwf : ∀ r ∈ rs, r.WF) :
+    checksumOf stub rs = .ok (Spec.checksum stub rs) :=
+  checksumOf_eq stub rs hlen hwf
+
+/-- `u32::rotate_left` as modelled is the arithmetic rotation of the specification. -/
+theorem C16_rotate_is_rotation (x n : Nat) (hx : x < 4294967296) :
+    rotl32 x n = rol32 x n ∧ rol32 x n < 4294967296 :=
+  ⟨rotl32_eq_spec x n hx, rol32_lt x n hx⟩
+
+/-! ## (b) round trip -/
+
+/-- Typing and placement conditions of the round trip: the stub contains the 16 dwords of the DOS
+header, everything is in range for its Rust type, and `e_lfanew` (dword 15 of the stub) points at
+the first byte after the padding (only `e_lfanew / 4` matters). -/
+def Admissible (stub : List Nat) (rs : List Record) (pad : Nat) : Prop :=
+  16 ≤ stub.length ∧ (∀ w ∈ stub, w < 4294967296) ∧ (∀ r ∈ rs, r.WF) ∧
+  stub.getD 15 0 / 4 = stub.length + (2 * rs.length + 6) + pad
+
+/-- The round trip for one input: the image whose DOS area is the documented layout with the
+checksum as key (followed by anything: `rest` = NT headers, sections) parses; the stub, the key,
+the records and the recomputed checksum are the ones that went in, and encoding the decoded
+records into a destination of the original size reproduces the original dwords. -/
+def RoundTrips (stub : List Nat) (rs : List Record) (pad : Nat) (rest : List Nat) : Prop :=
+  ∃ r, tryFrom (Spec.layout stub (Spec.checksum stub rs) rs pad ++ rest) = .ok r ∧
+    r.dosStub = stub ∧
+    r.xorKey = .ok (Spec.checksum stub rs) ∧
+    (∃ it, r.records = .ok it ∧ it.collect = rs) ∧
+    r.checksum = .ok (Spec.checksum stub rs) ∧
+    (∃ t, r.encode rs (2 * rs.length + 6 + pad) =
+      .ok (.done t (Spec.header (Spec.checksum stub rs) rs ++ List.replicate pad 0)))
+
+/-- **Round trip, conditional form.**  It holds whenever the checksum is not zero and no two
+consecutive records read `(product 0x536e, build 0x6144, count 0), (0, 0, 0)` (on disk: `DanS^k, k, k, k`). -/
+theorem C16_round_trip_partial (stub : List Nat) (rs : List Record) (pad : Nat) (rest : List Nat)
+    (ha : Admissible stub rs pad)
+    (hk : Spec.checksum stub rs ≠ 0) (him : imitates rs = false) :
+    RoundTrips stub rs pad rest := by
+  obtain ⟨h16, hb, hwf, he⟩ := ha
+  have hlen : 4 * stub.length < 4294967296 := by
+    have h15 : stub.getD 15 0 < 4294967296 := by
+      rw [List.getD_eq_getElem?_getD, List.getElem?_eq_getElem (by omega)]
+      exact hb _ (List.getElem_mem _)
+    omega
+  have hn : rs.length < 536870906 := by
+    have h15 : stub.getD 15 0 < 4294967296 := by
+      rw [List.getD_eq_getElem?_getD, List.getElem?_eq_getElem (by omega)]
+      exact hb _ (List.getElem_mem _)
+    omega
+  refine ⟨⟨stub, hdrWords (Spec.checksum stub rs) rs⟩, ?_, rfl, xorKey_hdr _ _ _, ?_, ?_, ?_⟩
+  · rw [layout_eq _ _ _ _ hwf]
+    exact tryFrom_layout stub _ rs pad rest h16 he hk hwf him
+  · exact ⟨_, records_hdr _ _ _, collect_hdr _ rs hwf⟩
+  · exact checksum_hdr stub _ rs hlen hwf
+  · rw [encode_eq _ rs _ hlen hwf hn]
+    simp only
+    rw [if_neg (by omega), header_eq _ rs hwf]
+    refine ⟨((Spec.checksum stub rs / 32) % 3 + rs.length) * 2 + 8, ?_⟩
+    congr 4
+    omega
+
+/-- Witness 1 (zero key): a 64-byte stub `MZ 00…` and the one record `(0xffff, 0xfebf, 0)` have
+checksum 0.  The trailer `Rich, 0` then ends in a zero dword, which `try_from` strips as padding:
+it looks for `Rich` one dword too early and answers `BadMagic`.
+Replay: `rich_rt 4d5a<62 zero bytes> 0xffff:0xfebf:0 0`. -/
+theorem C16_round_trip_fails_for_zero_key :
+    Admissible [23117, 0, 0, 0, 0, 0, 0, 0, 0, 0, 0, 0, 0, 0, 0, 96] [⟨0xfebf, 0xffff, 0⟩] 0 ∧
+    Spec.checksum [23117, 0, 0, 0, 0, 0, 0, 0, 0, 0, 0, 0, 0, 0, 0, 96] [⟨0xfebf, 0xffff, 0⟩] = 0 ∧
+    tryFrom (Spec.layout [23117, 0, 0, 0, 0, 0, 0, 0, 0, 0, 0, 0, 0, 0, 0, 96] 0 [⟨0xfebf, 0xffff, 0⟩] 0)
+      = .err .badMagic := by
+  refine ⟨?_, ?_, ?_⟩
+  · unfold Admissible; decide
+  · decide +kernel
+  · decide +kernel
+
+/-- Witness 2 (imitation): the records `(0x536e, 0x6144, 0), (0, 0, 0)` are written as
+`DanS^k, k, k, k`; the backward scan stops at them, so the real header block is handed out as part
+of the DOS stub and no record is returned.
+Replay: `rich_rt 4d5a<62 zero bytes> 0x536e:0x6144:0,0:0:0 0`. -/
+theorem C16_round_trip_fails_for_imitating_records :
+    Admissible [23117, 0, 0, 0, 0, 0, 0, 0, 0, 0, 0, 0, 0, 0, 0, 104] [⟨0x6144, 0x536e, 0⟩, ⟨0, 0, 0⟩] 0 ∧
+    Spec.checksum [23117, 0, 0, 0, 0, 0, 0, 0, 0, 0, 0, 0, 0, 0, 0, 104] [⟨0x6144, 0x536e, 0⟩, ⟨0, 0, 0⟩] = 1399743109 ∧
+    tryFrom (Spec.layout [23117, 0, 0, 0, 0, 0, 0, 0, 0, 0, 0, 0, 0, 0, 0, 104] 1399743109
+        [⟨0x6144, 0x536e, 0⟩, ⟨0, 0, 0⟩] 0)
+      = .ok ⟨[23117, 0, 0, 0, 0, 0, 0, 0, 0, 0, 0, 0, 0, 0, 0, 104, 961, 1399743109, 1399743109, 1399743109],
+             [961, 1399743109, 1399743109, 1399743109, 1751345490, 1399743109]⟩ := by
+  refine ⟨?_, ?_, ?_⟩
+  · unfold Admissible; decide
+  · decide +kernel
+  · decide +kernel
+
+/-- **Round trip, unconditional form: false.**  (Both witnesses above refute it; the zero key is used.) -/
+theorem C16_round_trip_full_false :
+    ¬ (∀ stub rs pad rest, Admissible stub rs pad → RoundTrips stub rs pad rest) := by
+  intro h
+  obtain ⟨ha, hk, ht⟩ := C16_round_trip_fails_for_zero_key
+  obtain ⟨r, h1, _⟩ := h _ _ 0 [] ha
+  rw [hk, List.append_nil, ht] at h1
+  cases h1
+
+/-! ## (c) rejection: what an `Ok` guarantees -/
+
+/-- If `try_from` yields a structure then the DOS area *is* the documented layout of exactly the
+stub, key and records it hands out, followed by `pad` zero dwords up to `e_lfanew`; the stub has at
+least the 16 dwords of the DOS header and the key is not zero.  (`image` = dwords of a byte buffer.) -/
+theorem C16_ok_means_documented_layout (image : List Nat) (hb : ∀ w ∈ image, w < 4294967296)
+    (r : RichS) (h : tryFrom image = .ok r) :
+    ∃ k it pad, r.xorKey = .ok k ∧ k ≠ 0 ∧ r.records = .ok it ∧ it.Inv ∧ (∀ x ∈ it.collect, x.WF) ∧
+      16 ≤ r.dosStub.length ∧
+      areaOf image = Spec.layout r.dosStub k it.collect pad ∧
+      r.image = Spec.header k it.collect ∧
+      r.checksum = .ok (Spec.checksum r.dosStub it.collect) := by
+  obtain ⟨h16, hn, s, e, k, hr, hwf, hk, _⟩ := tryFrom_sound image r h
+  have hba : ∀ w ∈ areaOf image, w < 4294967296 := fun w hw => hb w (List.mem_of_mem_take hw)
+  obtain ⟨rs, hrs, he, hM, hA⟩ := parsed_layout (areaOf image) s e k hwf hba
+  have hs : ((areaOf image).take s).length = s := (parsed_shape _ s e k hwf).1
+  have hlen : 4 * ((areaOf image).take s).length < 4294967296 := by
+    have h15 : image.getD 15 0 < 4294967296 := by
+      rw [List.getD_eq_getElem?_getD, List.getElem?_eq_getElem (by omega)]
+      exact hb _ (List.getElem_mem _)
+    have : (areaOf image).length ≤ image.getD 15 0 / 4 := by unfold areaOf; rw [List.length_take]; omega
+    have := hwf.2.2.1; have := hwf.2.1
+    omega
+  subst hr
+  simp only
+  rw [hM]
+  refine ⟨k, ⟨encodeAll k rs, k⟩, (areaOf image).length - e, xorKey_hdr _ _ _, hk, records_hdr _ _ _, ?_, ?_, ?_, ?_, ?_, ?_⟩
+  · refine ⟨?_, ?_⟩
+    · show (encodeAll k rs).length % 2 = 0
+      rw [encodeAll_length]; omega
+    · show (encodeAll k rs).length < USZ
+      rw [encodeAll_length]; unfold USZ
+      have := hwf.2.2.1
+      have h15 : image.getD 15 0 < 4294967296 := by
+        rw [List.getD_eq_getElem?_getD, List.getElem?_eq_getElem (by omega)]
+        exact hb _ (List.getElem_mem _)
+      have : (areaOf image).length ≤ image.getD 15 0 / 4 := by unfold areaOf; rw [List.length_take]; omega
+      omega
+  · rw [collect_hdr k rs hrs]; exact hrs
+  · rw [hs]; exact hwf.1
+  · rw [collect_hdr k rs hrs, layout_eq _ _ _ _ hrs]; exact hA
+  · rw [collect_hdr k rs hrs, header_eq k rs hrs]
+  · rw [collect_hdr k rs hrs]; exact checksum_hdr _ k rs hlen hrs
+
+/-- The same in positions: `DanS^key, key, key, key` at `start ≥ 16`, `Rich, key` right before `end`,
+an even number of dwords between, only zero dwords from `end` to `e_lfanew`; and the image has its
+`e_lfanew` dword and is at least `e_lfanew` long. -/
+theorem C16_ok_means_well_formed_trailer (image : List Nat) (r : RichS) (h : tryFrom image = .ok r) :
+    16 ≤ image.length ∧ image.getD 15 0 / 4 ≤ image.length ∧
+    ∃ k, k ≠ 0 ∧ WellFormedAt (areaOf image) r.start r.end_ k ∧
+      r.dosStub = (areaOf image).take r.start ∧ r.image = ((areaOf image).take r.end_).drop r.start := by
+  obtain ⟨h16, hn, s, e, k, hr, hwf, hk, _⟩ := tryFrom_sound image r h
+  obtain ⟨h1, h2, _⟩ := parsed_shape (areaOf image) s e k hwf
+  have hs : r.start = s := by subst hr; exact h1
+  have he : r.end_ = e := by
+    subst hr; unfold RichS.end_; simp only; rw [h1, h2]; have := hwf.2.1; omega
+  refine ⟨h16, hn, k, hk, by rw [hs, he]; exact hwf, by rw [hs, hr], by rw [hs, he, hr]⟩
+
+/-- Hence: a DOS area without a well-formed `DanS … Rich key` trailer never yields records. -/
+theorem C16_no_trailer_no_records (image : List Nat)
+    (hno : ¬ ∃ s e k, WellFormedAt (areaOf image) s e k) : ∀ r, tryFrom image ≠ .ok r := by
+  intro r h
+  obtain ⟨_, _, k, _, hwf, _⟩ := C16_ok_means_well_formed_trailer image r h
+  exact hno ⟨_, _, k, hwf⟩
+
+/-- Conversely the exact acceptance condition: a well-formed trailer with a non-zero key and no
+imitation of the header block between header and trailer is found exactly. -/
+theorem C16_well_formed_trailer_is_found (image : List Nat) (s e k : Nat) (h16 : 16 ≤ image.length)
+    (hn : image.getD 15 0 / 4 ≤ image.length)
+    (hwf : WellFormedAt (areaOf image) s e k) (hk : k ≠ 0) (hno : NoFake (areaOf image) s e k) :
+    tryFrom image = .ok ⟨(areaOf image).take s, ((areaOf image).take e).drop s⟩ := by
+  rw [tryFrom_eq, if_pos ⟨h16, hn⟩]
+  exact parseArea_complete _ s e k hwf hk hno
+
+/-! ## (d) no panic, no out-of-bounds access, termination (C02 / C03 obligations of this module) -/
+
+/-- `try_from` on *any* dword list answers a structure, `Invalid` or `BadMagic`: every `image[..]`
+and every subtraction of the two scans is in range, both loops terminate. -/
+theorem C16_try_from_total (image : List Nat) :
+    (∃ r, tryFrom image = .ok r) ∨ tryFrom image = .err .invalid ∨ tryFrom image = .err .badMagic :=
+  tryFrom_total image
+
+/-- `Pe::rich_structure`: the `u32` reinterpretation is in bounds and aligned for every image whose
+address is a multiple of 4 (which `validate_headers` has checked for every constructed view). -/
+theorem C16_rich_structure_no_ub (img : Img) (h : img.base % 4 = 0) :
+    ofImage img = tryFrom (words img.bytes) ∧ ∀ w ∈ words img.bytes, w < 4294967296 :=
+  ⟨ofImage_eq img h, words_lt img.bytes⟩
+
+/-- Every call of every `RichIter` method on an iterator over any slice (even one with a dangling
+odd dword) returns; in particular `nth(n)` returns for every `n` (the `n * 2 + 2` of the guard
+was removed by commit ed9f3f7; the products under the new guard cannot overflow). -/
+theorem C16_iter_total (it : Iter) (hlen : it.iter.length < USZ) (op : Op) : ∃ p, it.step op = .ok p :=
+  step_total it hlen op
+
+/-- C18 for `RichIter`: on an iterator as handed out by `records()` every finite history of
+`next / next_back / nth k / len / size_hint / count / clone` gives exactly the answers of a deque
+holding the decoded records (so size hints are exact and the iterator is fused). -/
+theorem C16_iter_is_deque (it : Iter) (h : it.Inv) (ops : List Op) :
+    it.run ops = .ok (runDeque it.collect ops) :=
+  run_refines ops it h
+
+/-- `collect` (used above for "the records") is `next` run to exhaustion. -/
+theorem C16_collect_is_next (it it' : Iter) :
+    (∀ r, it.next = .ok (some r, it') → it.collect = r :: it'.collect) ∧
+    (it.next = .ok (none, it') → it.collect = [] ∧ it' = it) :=
+  ⟨fun r h => collect_next_some it it' r h, collect_next_none it it'⟩
+
+/-- `encode` never panics for fewer than 536 870 906 records and writes exactly the documented header
+with the checksum of the structure's stub and the new records as key, then zero padding; a too
+small destination is reported with the length MSVC would have used.
+(From 536 870 906..908 records on — 4 GiB of `RichRecord`s — `(.. + n as u32) * 8 + 0x20` overflows `u32`.) -/
+theorem C16_encode_total (r : RichS) (rs : List Record) (destLen : Nat)
+    (hlen : 4 * r.dosStub.length < 4294967296) (hwf : ∀ x ∈ rs, x.WF) (hn : rs.length < 536870906) :
+    r.encode rs destLen = .ok (
+      let k := Spec.checksum r.dosStub rs
+      let total := ((k / 32) % 3 + rs.length) * 2 + 8
+      if destLen < rs.length * 2 + 6 then .tooSmall total
+      else .done total (Spec.header k rs ++ List.replicate (destLen - (rs.length * 2 + 6)) 0)) := by
+  rw [encode_eq r rs destLen hlen hwf hn]
+  simp only [header_eq _ rs hwf]
+
+/-! ## non-vacuity -/
+
+/-- the hypotheses of the conditional round trip are satisfiable, and its conclusion computes -/
+example : Admissible [23117, 0, 0, 0, 0, 0, 0, 0, 0, 0, 0, 0, 0, 0, 0, 112] [⟨0x6fc4, 0x105, 77⟩, ⟨0, 1, 3⟩] 2 ∧
+    Spec.checksum [23117, 0, 0, 0, 0, 0, 0, 0, 0, 0, 0, 0, 0, 0, 0, 112] [⟨0x6fc4, 0x105, 77⟩, ⟨0, 1, 3⟩] = 2919268705 ∧
+    imitates [⟨0x6fc4, 0x105, 77⟩, ⟨0, 1, 3⟩] = false := by
+  refine ⟨by unfold Admissible; decide, by decide +kernel, by decide⟩
+
+example : tryFrom ([23117, 0, 0, 0, 0, 0, 0, 0, 0, 0, 0, 0, 0, 0, 0, 112,
+      4251901989, 2919268705, 2919268705, 2919268705, 2936401573, 2919268652, 2919334241, 2919268706,
+      1751345490, 2919268705, 0, 0] ++ [0x4550, 0x14c])
+    = .ok ⟨[23117, 0, 0, 0, 0, 0, 0, 0, 0, 0, 0, 0, 0, 0, 0, 112],
+           [4251901989, 2919268705, 2919268705, 2919268705, 2936401573, 2919268652, 2919334241, 2919268706,
+            1751345490, 2919268705]⟩ := by
+  decide +kernel
+
+/-- an area that is rejected: the trailer key differs from the header key -/
+example : tryFrom [23117, 0, 0, 0, 0, 0, 0, 0, 0, 0, 0, 0, 0, 0, 0, 88, DANS ^^^ 5, 5, 5, 5, RICH, 6]
+    = .err .invalid := by
+  decide +kernel
+
+/-- a deque history on a real iterator -/
+example : (Iter.mk [1, 2, 3, 4, 5, 6] 0).run [.nth 1, .len, .nextBack, .next] =
+    .ok [.item (some ⟨3, 0, 4⟩), .num 1, .item (some ⟨5, 0, 6⟩), .item none] := by
+  decide +kernel
+
 end Pelite.Rich
